@@ -78,9 +78,9 @@ type fakeMgr struct {
 	scheme  *kruntime.Scheme
 }
 
-func (m *fakeMgr) Elected() <-chan struct{}      { return m.elected }
-func (m *fakeMgr) GetScheme() *kruntime.Scheme   { return m.scheme }
-func (m *fakeMgr) GetLogger() logr.Logger        { return logr.Discard() }
+func (m *fakeMgr) Elected() <-chan struct{}    { return m.elected }
+func (m *fakeMgr) GetScheme() *kruntime.Scheme { return m.scheme }
+func (m *fakeMgr) GetLogger() logr.Logger      { return logr.Discard() }
 
 type ctrlKey struct{}
 
@@ -255,19 +255,19 @@ type opOut struct {
 }
 
 type world struct {
-	s      *sim.Sim
-	proc   *sim.Proc
-	eng    *engine.ControllerEngine
-	cache  *fakeCache
-	mgr    *fakeMgr
-	ctrls  []*fakeCtrl
-	nreg   int
-	clock  int64
-	hist   []opRec
-	xrRefs [][]schema.GroupVersionKind
-	wait   map[*simsync.RWMutex]int
-	names  map[*simsync.RWMutex]string
-	quiet  bool // sequential probe phase: no yields
+	s         *sim.Sim
+	proc      *sim.Proc
+	eng       *engine.ControllerEngine
+	cache     *fakeCache
+	mgr       *fakeMgr
+	ctrls     []*fakeCtrl
+	nreg      int
+	clock     int64
+	hist      []opRec
+	xrRefs    [][]schema.GroupVersionKind
+	wait      map[*simsync.RWMutex]int
+	names     map[*simsync.RWMutex]string
+	quiet     bool // sequential probe phase: no yields
 	removedAt map[schema.GroupVersionKind]int64
 }
 
